@@ -20,6 +20,45 @@ pub(crate) struct Peer {
     pub(crate) registration: u64,
 }
 
+/// A turn taken from a round-robin queue. Unless it is discarded it goes back
+/// to the end of the queue when dropped, so that a send future that is dropped
+/// while it waits (a timeout, `select!`) does not take the peer out of the rotation.
+pub(crate) struct RoundRobinTurn<'a> {
+    queue: &'a SegQueue<(PeerIdentity, u64)>,
+    turn: Option<(PeerIdentity, u64)>,
+}
+
+impl<'a> RoundRobinTurn<'a> {
+    pub(crate) fn next(queue: &'a SegQueue<(PeerIdentity, u64)>) -> Option<Self> {
+        let turn = queue.pop()?;
+        Some(Self {
+            queue,
+            turn: Some(turn),
+        })
+    }
+
+    pub(crate) fn peer_id(&self) -> &PeerIdentity {
+        &self.turn.as_ref().unwrap().0
+    }
+
+    pub(crate) fn registration(&self) -> u64 {
+        self.turn.as_ref().unwrap().1
+    }
+
+    /// The peer is gone: the turn does not go back into the queue.
+    pub(crate) fn discard(mut self) -> PeerIdentity {
+        self.turn.take().unwrap().0
+    }
+}
+
+impl Drop for RoundRobinTurn<'_> {
+    fn drop(&mut self) {
+        if let Some(turn) = self.turn.take() {
+            self.queue.push(turn);
+        }
+    }
+}
+
 pub(crate) struct GenericSocketBackend {
     pub(crate) peers: scc::HashMap<PeerIdentity, Peer>,
     fair_queue_inner: Option<Arc<Mutex<QueueInner<ZmqFramedRead, PeerIdentity>>>>,
@@ -58,8 +97,8 @@ impl GenericSocketBackend {
         // items from queue. So in such case we'll just pop item and skip it if
         // we don't have a matching peer in peers map
         loop {
-            let (next_peer_id, registration) = match self.round_robin.pop() {
-                Some(peer) => peer,
+            let turn = match RoundRobinTurn::next(&self.round_robin) {
+                Some(turn) => turn,
                 None => match message {
                     Message::Greeting(_) => panic!("Sending greeting is not supported"),
                     Message::Command(_) => panic!("Sending commands is not supported"),
@@ -73,21 +112,26 @@ impl GenericSocketBackend {
             };
             #[cfg(feature = "verif-hooks")]
             crate::verif_hooks::yield_point("backend.send_round_robin.after_pop").await;
-            let send_result = match self.peers.get_async(&next_peer_id).await {
-                Some(mut peer) if peer.registration == registration => {
+            let send_result = match self.peers.get_async(turn.peer_id()).await {
+                Some(mut peer) if peer.registration == turn.registration() => {
                     peer.send_queue.send(message).await
                 }
                 // The peer is gone, or this turn belongs to an earlier
                 // connection under the same identity.
-                _ => continue,
+                _ => {
+                    turn.discard();
+                    continue;
+                }
             };
             return match send_result {
                 Ok(()) => {
-                    self.round_robin
-                        .push((next_peer_id.clone(), registration));
+                    let next_peer_id = turn.peer_id().clone();
+                    // Dropping the turn puts it back at the end of the queue.
+                    drop(turn);
                     Ok(next_peer_id)
                 }
                 Err(e) => {
+                    let next_peer_id = turn.discard();
                     self.peer_disconnected(&next_peer_id);
                     Err(e.into())
                 }
